@@ -101,10 +101,11 @@ PROPS["C24"] = dict(
 
 PROPS["C27"] = dict(
     module="c27", func="run", level="other", crates=["emmylua_ls"],
-    technique="write-set + call-graph reachability to find document-text mutators; dispatch-coroutine MIR (inline await vs tokio::spawn)",
+    technique="write-set + call-graph reachability to find document-text mutators; dispatch-coroutine MIR (inline await vs tokio::spawn); must-pass-through of update_file_by_uri after sync_open_file with provenance-checked filter branches",
     text="Decides the ordering-domain clause: every notification handler that can mutate the per-document text "
          "state is awaited inline on the single message loop, so their effects are applied in message order; "
-         "a handler of that set dispatched through tokio::spawn is reported.",
+         "a handler of that set dispatched through tokio::spawn is reported. R27b: in didOpen/didChange every path from "
+         "recording the text to the end of the handler hands it to update_file_by_uri, except through the workspace filter branch.",
     note="Interleavings inside one handler and with reload tasks are not decided (C28/C29). Trusted: rustc coroutine MIR, "
          "emmyfacts, call-graph over-approximation.")
 
